@@ -1,0 +1,7 @@
+//go:build !verif
+
+package subscribe
+
+// verifPoint is a schedule point used by the verification harness (build tag
+// "verif"); it compiles to nothing in normal builds.
+func verifPoint(string) {}
